@@ -1455,9 +1455,9 @@ def spaces(tier, seed):
                         "1 + 37 i mod 127 or none) x rows ascending / descending / stride-7 permutation x remove_silence x {plain, "
                         "note_separation, onset_only}." + big_txt))
         sp.append(Space("magnitude-pitch-class",
-                        lambda: gen_mag("pc", MAGS_PC + MAGS_PC_REST, ((60, 72), (127, 0), (59, 60)), SQ3, SMALL_DU, MAG_VELS, None), True,
-                        "pitch-class rolls of ALL ordered 2-row arrays pitch{(60,72),(127,0),(59,60)} x onset{0,1,2}^2 x duration"
-                        "{(1,2),(2,1)} x velocity{absent,(64,127),(127,64)} x every magnitude x normalize x binary (display mode, "
+                        lambda: gen_mag("pc", MAGS_PC + MAGS_PC_REST, ((60, 72), (127, 0)), SQ3, SMALL_DU, MAG_VELS[:2], None), True,
+                        "pitch-class rolls of ALL ordered 2-row arrays pitch{(60,72),(127,0)} x onset{0,1,2}^2 x duration"
+                        "{(1,2),(2,1)} x velocity{absent,(64,127)} x every magnitude x normalize x binary (display mode, "
                         "remove_silence, return_idxs, end_time cycled); fold computed from the sparse reference cells; " +
                         _mag_txt(MAGS_PC + MAGS_PC_REST)))
     return sp
